@@ -394,6 +394,11 @@ impl<N, E, H: BuildHasher + Default> DAG<N, E, H> {
       return Err(Error::CycleDetected);
     }
 
+    if self.node_info[src.0].children.contains(dst) {
+      // Edge already exists: short circuit before `insert`, which would move `dst` to the back of the insertion order.
+      return Ok(false);
+    }
+
     // Insert forward edge
     let mut no_prev_edge = self.node_info[src.0].children.insert(*dst);
     let upper_bound = self.node_info[src.0].topo_order;
